@@ -64,6 +64,7 @@ from py_gql.execution import BlockingExecutor, Executor
 from py_gql.execution.runtime import BlockingRuntime
 
 import contextlib
+import functools
 import re
 import sys
 
@@ -509,7 +510,9 @@ class _Run:
         if self.config in ("aio", "aiot"):
             return self.coro(None, ctx, info, **a)          # a coroutine object
         if self.config == "pool":
-            return info.runtime.submit(self.pooled, None, ctx, info)   # a Future
+            # a Future (a Deferred under the third-party runtime); the arguments travel in a partial:
+            # Runtime.submit(func, *args, **kwargs) has parameters of its own
+            return info.runtime.submit(functools.partial(self.pooled, None, ctx, info, **a))
         return self.immediate(ctx, info, **a)
 
     def plain(self, _root, ctx, info, /, **a):
